@@ -37,6 +37,8 @@ func main() {
 			"AuthorizedServer, EquipmentMigration and GCARegistration have no binary decoder in the repository; for them encode and signing bytes are judged, decoding is judged through the real JSON endpoints",
 			"disk-level length probes start the real server on copies of a directory a real server wrote, with one file extended by part of a next valid record / random bytes or cut inside its last record: equipment-authorizations.dat and equipment-reports.dat must be refused at start; for allDeviceStats.dat refusal and 'start succeeds, the incomplete trailing record is dropped from memory and file' are both accepted (the tree does the latter on purpose, fix ad3b1c3)",
 			"migration orders of exactly N bytes (N around 64955 = 65535-580, the largest order whose sync reply fits the u16 length prefix) are built from validly signed entries with tuned location lengths; above the limit the endpoint must refuse and the device's raw sync reply must stay order-free and decodable, at and below it the raw sync reply must decode (reference parser) to exactly that order",
+			"live wire batches: the server's list of authorized servers is built through the real endpoint (records with locations of 0/1/short/255 bytes, entries posted as banned and entries banned later in place); after every step the device's raw TCP sync reply must equal refenc.BuildSyncReply of the posted records (only the unix time is taken from the reply), GET /authorized-servers must return them, the real client's decoder (VerifServerSync) must return them and, at some steps and for every migration order, a fresh real client's full sync round must end with exactly those records in memory and in gcaServers.dat. Locations are chosen so that the server's own fan-out to them fails at once (leading space / port 1)",
+			"fan-out: an authorization absent on the newly authorized server is a violation only if the sender's log shows no failed send and the receiver's log no refusal (forwarding is fire-and-forget; a failed POST is logged and not judged)",
 			"bit flips: all bits of signing bytes, signature and key for messages up to 4096 bits; for the 32 KiB-per-device statistics records all bits of the first 96 and last 16 bytes plus a seeded random sample",
 		},
 		Plan:  plan,
@@ -49,7 +51,7 @@ func plan(tier string, seed int64) []run.Batch {
 	var bs []run.Batch
 	add := func(kind string, n int, params map[string]string) {
 		to := 300 // pure function batches host no server or client (which would panic by design after 120 s)
-		if kind == "json" || kind == "disklen" || kind == "migsize" {
+		if kind == "json" || kind == "disklen" || kind == "migsize" || kind == "wire" || kind == "fanout" {
 			to = 110
 		}
 		bs = append(bs, run.Batch{Kind: kind, Seed: seed*1000 + int64(len(bs)), N: n, TimeoutS: to, Params: params})
@@ -80,6 +82,10 @@ func plan(tier string, seed int64) []run.Batch {
 		add("disklen", 0, nil)
 		add("migsize", 0, nil)
 	}
+	for i := 0; i < pick(1, 4); i++ {
+		add("wire", 0, nil)
+		add("fanout", 0, nil)
+	}
 	// the same case list in two processes: signatures must be identical
 	bs = append(bs, run.Batch{Kind: "signdet", Seed: seed * 7919, N: pick(64, 512), TimeoutS: 300, Params: map[string]string{"proc": "a"}})
 	bs = append(bs, run.Batch{Kind: "signdet", Seed: seed * 7919, N: pick(64, 512), TimeoutS: 300, Params: map[string]string{"proc": "b"}})
@@ -100,6 +106,10 @@ func child(b run.Batch, r *ev.Result) {
 		childJSON(b, r)
 	case "signdet":
 		childSignDet(b, r)
+	case "wire":
+		childWire(b, r)
+	case "fanout":
+		childFanout(b, r)
 	case "disklen":
 		childDiskLen(b, r)
 	case "migsize":
@@ -119,13 +129,28 @@ func post(c *ev.Check, outs []*run.Outcome) {
 		"verify_bitflips", "verify.wrong_key", "json.post_accepted", "json.get_compared", "json.file_records_compared", "json.forwarded_compared", "json.after_restart_compared",
 		"json.float_class.negzero", "json.float_class.subnormal", "json.float_class.max", "servermap.location_65535", "servermap.empty", "stats.empty_stream", "stats.zero_devices",
 		"disk.stats_record_verified", "disklen.control_started", "disklen.refused_at_start", "len.disk.equipment-authorizations.dat", "len.disk.equipment-reports.dat", "len.disk.allDeviceStats.dat",
-		"migsize.accepted_and_synced", "migsize.largest_deliverable_order_synced"} {
+		"migsize.accepted_and_synced", "migsize.largest_deliverable_order_synced", "wire.list_scenarios", "wire.registration_response_compared"} {
 		c.Require(k, 1)
 	}
 	c.Require("migsize.oversize_refused", 5)
+	c.Require("wire.sync_replies_compared", 10)
+	c.Require("wire.client_decodes_compared", 10)
+	c.Require("wire.client_rounds_compared", 4)
+	c.Require("wire.orders_compared", 4)
+	c.Require("max.wire_list_entries", 8)
+	c.Require("max.wire_list_bytes", 1000)
+	c.Require("fanout.scenarios", 5)
+	c.Require("fanout.complete", 3)
 	if c.Counter("disklen.stats_partial_record_dropped")+c.Counter("disklen.stats_partial_record_refused") < 1 {
 		c.Inconc("no history file with an incomplete trailing record was judged")
 	}
+	walls := map[string]float64{}
+	for _, o := range outs {
+		if o.WallS > walls[o.Batch.Kind] {
+			walls[o.Batch.Kind] = o.WallS
+		}
+	}
+	c.SetExtra("batch_wall_max_s", walls)
 	// Sign determinism across processes
 	var a, b []interface{}
 	for _, o := range outs {
